@@ -14,11 +14,13 @@ from pathlib import Path
 from lib import core
 from lib.core import zlit, coq_list
 
-PREAMBLE = "From Typhon Require Import Model.C03_tree.\n"
+PREAMBLE = "From Typhon Require Import Model.C03_tree Model.C03_match.\n"
 TRUSTED = [
     "correspondence harness tools/props/c03.py (generators, rank transform of float/datetime end points, canonical sorting)",
     "numpy array semantics and Python comparison operators (exercised, not modelled)",
-    "FileSet.find for flat templates (its own property C01); match is tied on the coverages find() delivered",
+    "FileSet.find for flat templates (its own property C01): the model of match() takes the two listings of find() (checked per "
+    "case to be the generated files sorted by (start, end)) and models the selection of the period itself",
+    "max_interval below 2**53 microseconds (285 years), where int(timedelta.total_seconds()) is exact",
 ]
 
 
@@ -188,7 +190,103 @@ def gen_match_case(rng, k):
     return {"id": k, "prim": prim, "sec": sec, "mi": mi, "mi_form": form, "start": start, "end": end, "naming": naming}
 
 
+US = 10 ** 6
+DMIN_US = (dt.datetime.min - T0) // dt.timedelta(microseconds=1)      # the range of datetime on the axis
+DMAX_US = (dt.datetime.max - T0) // dt.timedelta(microseconds=1)      # "microseconds since T0"
+
+
+def to_dt(v):
+    """A period limit of a case: None (argument not given), "min" / "max" (datetime.min / datetime.max given
+    explicitly) or whole seconds after T0."""
+    if v is None:
+        return None
+    if v == "min":
+        return dt.datetime.min
+    if v == "max":
+        return dt.datetime.max
+    return T0 + dt.timedelta(seconds=v)
+
+
+def to_us(v):
+    if v is None:
+        return None
+    if v == "min":
+        return DMIN_US
+    if v == "max":
+        return DMAX_US
+    return v * US
+
+
+def gen_period_cases(rng, k0, n):
+    """The period clause of match(), directed: every open/closed combination, limits given explicitly as datetime.min /
+    datetime.max or within max_interval of them (the widening is clamped), an empty period (ValueError), a period without
+    files (NoFilesError), files of equal start time and files of equal coverage (the order of the listing decides).
+    Drawn after all other cases: the random streams of the cases above do not depend on them."""
+    dmin_s, dmax_s = DMIN_US // US, DMAX_US // US          # whole seconds after T0 (dmax_s: .999999 cut off)
+    cases = []
+    for k in range(n):
+        unit = rng.choice([1, 60, 3600])
+        horizon = rng.choice([20, 60])
+
+        def fileset(nmax, ties):
+            files = []
+            for _ in range(rng.randint(1, nmax)):
+                a = rng.randint(0, horizon)
+                files.append((a * unit, (a + rng.randint(0, max(1, horizon // 5))) * unit))
+                if ties and rng.random() < 0.5:
+                    a0, b0 = rng.choice(files)
+                    files.append((a0, b0 + rng.choice([0, 0, 1, 3]) * unit))    # equal start; equal coverage
+            files.sort()
+            # at most two files of the same coverage (their paths differ by the {sat} placeholder, three values in turn)
+            return [f for i, f in enumerate(files) if i < 2 or files[i - 2] != f]
+        ties = (k // 12) % 2 == 0
+        prim, sec = fileset(6, ties), fileset(6, ties)
+        if not ties:
+            prim, sec = sorted(set(prim)), sorted(set(sec))
+        mi = rng.choice([None, 0, 1, unit, 5 * unit, 86400 + unit])
+        lo_, hi_ = rng.randint(0, horizon) * unit, None
+        hi_ = lo_ + rng.randint(1, horizon) * unit
+        kind = ["closed", "open-start", "open-end", "open-both", "min-explicit", "max-explicit", "near-min", "near-max",
+                "near-both", "empty", "nofiles", "end-min"][k % 12]
+        start, end = lo_, hi_
+        if kind == "open-start":
+            start = None
+        elif kind == "open-end":
+            end = None
+        elif kind == "open-both":
+            start = end = None
+        elif kind == "min-explicit":
+            start = "min"
+        elif kind == "max-explicit":
+            end = "max"
+        elif kind == "near-min":
+            start = dmin_s + rng.choice([0, 1, 3, 86400])
+        elif kind == "near-max":
+            end = dmax_s - rng.choice([0, 1, 3, 86400])
+        elif kind == "near-both":
+            start, end = dmin_s + rng.choice([0, 2]), dmax_s - rng.choice([0, 2])
+        elif kind == "empty":
+            end = start                                      # [start, start) is empty unless max_interval widens it
+        elif kind == "nofiles":
+            start = (horizon * 2 + 100 + rng.randint(0, 5)) * unit + 2 * 86400
+            end = start + unit
+        elif kind == "end-min":
+            start, end = rng.choice([None, "min"]), "min"
+        # equal coverages need distinguishable paths
+        naming = rng.choice(["prefix", "subdir"]) if ties else rng.choice(["plain", "prefix", "subdir"])
+        if kind in ("near-min", "near-both") and naming == "subdir":
+            # find() itself looks one sub-directory resolution before `start` (start - 1 year here) and overflows when start is
+            # that close to, but not equal to, datetime.min: not match()'s period clause, kept out of this check
+            naming = "prefix"
+        form = rng.choice(["int", "timedelta", "str"]) if mi else "int"
+        cases.append({"id": k0 + k, "prim": prim, "sec": sec, "mi": mi, "mi_form": form, "start": start, "end": end,
+                      "naming": naming, "directed": kind})
+    return cases
+
+
 def run_match_impl(case):
+    """Run the real FileSet.match.  Returns {"listing": [keys of a, keys of b] (the order of find()), "res": what was
+    yielded as positions in these listings [[i, [j, ...]], ...] or "ERR:...", "keys": the same as (start, end) keys}."""
     from typhon.files import FileSet
     root = Path(tempfile.mkdtemp(prefix="verif_c03_"))
     try:
@@ -210,40 +308,64 @@ def run_match_impl(case):
                     (d / base).touch()
             tmpl = {"plain": TEMPLATE, "prefix": "{sat}_" + TEMPLATE, "subdir": "{sat}/" + TEMPLATE}[naming]
             sets.append(FileSet(str(d / tmpl), name=name))
-        start = None if case["start"] is None else T0 + dt.timedelta(seconds=case["start"])
-        end = None if case["end"] is None else T0 + dt.timedelta(seconds=case["end"])
+
+        def key(fi):
+            return [int((fi.times[0] - T0).total_seconds()), int((fi.times[1] - T0).total_seconds())]
+        out = {}
+        try:
+            listings = [list(fs.find(no_files_error=False)) for fs in sets]
+        except Exception as e:  # noqa
+            return {"listing": f"ERR:{type(e).__name__}: {str(e)[:100]}", "res": None, "keys": None}
+        out["listing"] = [[key(fi) for fi in li] for li in listings]
+        pos = [{fi.path: k for k, fi in enumerate(li)} for li in listings]
         try:
             mi = case["mi"]
             if mi and case.get("mi_form") == "timedelta":
                 mi = dt.timedelta(seconds=mi)
             elif mi and case.get("mi_form") == "str":
                 mi = f"{mi} seconds" if mi % 3600 else f"{mi // 3600} hours"
-            res = list(sets[0].match(sets[1], start, end, max_interval=mi))
+            res = list(sets[0].match(sets[1], to_dt(case["start"]), to_dt(case["end"]), max_interval=mi))
         except Exception as e:  # noqa
-            return f"ERR:{type(e).__name__}: {str(e)[:100]}"
-
-        def key(fi):
-            return (int((fi.times[0] - T0).total_seconds()), int((fi.times[1] - T0).total_seconds()))
-        return [[list(key(p)), [list(key(s)) for s in ss]] for p, ss in res]
+            out["res"] = out["keys"] = f"ERR:{type(e).__name__}: {str(e)[:100]}"
+            return out
+        out["keys"] = [[key(p), [key(s) for s in ss]] for p, ss in res]
+        out["res"] = [[pos[0].get(p.path, -1), [pos[1].get(s.path, -1) for s in ss]] for p, ss in res]
+        return out
     finally:
         shutil.rmtree(root, ignore_errors=True)
 
 
-def found(files, start, end):
-    """find() of a flat template = brute force (this part is C01's business; here it only selects the
-    inputs handed to the matching step)."""
-    return sorted(f for f in files if f[0] < end and f[1] >= start)
+def coq_optz(v):
+    return "None" if v is None else f"(Some {zlit(v)})"
 
 
 def match_expr(case):
-    mi = case["mi"] or 0
-    BIG = 10 ** 15                      # beyond every file of the harness: the open side of a period
-    start = -BIG if case["start"] is None else case["start"] - mi
-    end = BIG if case["end"] is None else case["end"] + mi
-    prim, sec = found(case["prim"], start, end), found(case["sec"], start, end)
-    p = coq_list([f"({zlit(a)}, {zlit(b)})" for a, b in prim])
-    s = coq_list([f"({zlit(a)}, {zlit(b)})" for a, b in sec])
-    return prim, sec, f"(match_model {zlit(mi)} {p} {s}, match_spec {zlit(mi)} {p} {s})"
+    """The whole of match() in Coq (Model/C03_match.v) on the two listings (generated files sorted by (start, end), as find()
+    lists them), microseconds since T0, open sides as None: the model's outcome, the widened period, the positions found in it
+    and the brute-force specification."""
+    prim, sec = sorted(case["prim"]), sorted(case["sec"])
+    mi = None if case["mi"] is None else case["mi"] * US
+    args = (f"{zlit(DMIN_US)} {zlit(DMAX_US)} {coq_optz(mi)} {coq_optz(to_us(case['start']))} "
+            f"{coq_optz(to_us(case['end']))}")
+    p = coq_list([f"({zlit(a * US)}, {zlit(b * US)})" for a, b in prim])
+    s = coq_list([f"({zlit(a * US)}, {zlit(b * US)})" for a, b in sec])
+    w = f"(wperiod {args})"
+    return prim, sec, (f"(match_full {args} {p} {s}, {w}, map idx (find_sel {w} {p}), map idx (find_sel {w} {s}), "
+                       f"match_full_spec {args} {p} {s})")
+
+
+def spec_outcome(w, sel_p, sel_s, spec):
+    """The right-hand side of theorem match_full_outcome."""
+    if w[1] < w[0]:
+        return ("Raised", "OverflowError" if w[1] < DMIN_US else "ValueError")
+    if not sel_p or not sel_s:
+        return ("Raised", "NoFilesError")
+    return ("Yields", spec)
+
+
+def period_ok(case):
+    """Hypothesis period_ok of the match_full theorems (start and end are datetimes by construction)."""
+    return (case["mi"] or 0) >= 0
 
 
 # ----------------------------------------------------------------------------- check
@@ -292,6 +414,13 @@ def check_tree_cases(ctx, cases):
     return len(nontrivial)
 
 
+OUTCOMES = {}            # outcome of the model per kind of period, for the coverage record
+
+
+def increasing(l):
+    return all(a < b for a, b in zip(l, l[1:]))
+
+
 def check_match_cases(ctx, cases):
     exprs, inputs = [], []
     for c in cases:
@@ -306,25 +435,59 @@ def check_match_cases(ctx, cases):
         ctx.cov["evaluations"] += 1
         o = run_match_impl(c)
         if v is None:
-            ctx.fail("correspondence", "Coq evaluation of match_model failed", case=c, signature="coq-eval")
+            ctx.fail("correspondence", "Coq evaluation of match_full failed", case=c, signature="coq-eval")
             continue
-        model, spec = v
-        if model != spec:
-            ctx.fail("proof", "match_model and match_spec disagree inside Coq", case=c, signature="model-vs-spec")
-        expect = [[list(prim[i]), [list(sec[j]) for j in js]] for i, js in spec]
-        if isinstance(o, str):
-            if not prim or not sec:
-                if "NoFilesError" in o:
-                    continue         # find() reports an empty period by NoFilesError (C01), nothing to match
-            ctx.fail("failing-input", f"FileSet.match raised {o}", case=c, impl=o, model=expect, signature="match-error")
+        model, (w0, w1), sel_p, sel_s, spec = v          # Coq prints left-nested pairs flat
+        want = spec_outcome((w0, w1), sel_p, sel_s, spec)
+        if model[0] == "Raised" and isinstance(model[1], tuple):
+            model = ("Raised", model[1][-1])          # a constant constructor as argument is parsed as ("#", name)
+        if period_ok(c) and model != want:
+            ctx.fail("proof", f"match_full {model} and its specification {want} disagree inside Coq "
+                     "(cannot happen while theorem match_full_outcome stands)", case=c, signature="model-vs-spec")
+        if isinstance(o["listing"], str):
+            ctx.fail("correspondence", f"FileSet.find (whole listing) raised {o['listing']}", case=c, signature="match-listing")
             continue
-        if o != expect:
-            ctx.fail("failing-input", f"FileSet.match returned {o}, expected {expect}", case=c, impl=o, model=expect,
-                     signature="match-result")
-        if expect and any(len(js) < len(sec) for _, js in spec):
+        if o["listing"] != [[list(x) for x in prim], [list(x) for x in sec]]:
+            # hypothesis of the time-order theorem and of the tie: find() lists the files by (start, end)  (C01's business)
+            ctx.fail("correspondence", f"find() lists {o['listing']}, the generated files sorted by (start, end) are "
+                     f"{[prim, sec]}", case=c, impl=o["listing"], signature="match-listing")
+            continue
+        res = o["res"]
+        tag = f"{c.get('directed', 'random')}:{want[1] if want[0] == 'Raised' else ('pairs' if spec else 'no pair')}"
+        OUTCOMES[tag] = OUTCOMES.get(tag, 0) + 1
+        if want[0] == "Raised":
+            if isinstance(res, str):
+                if want[1] not in res:
+                    ctx.fail("correspondence", f"FileSet.match raised {res}, the model raises {want[1]}", case=c, impl=res,
+                             model=want, signature="match-error-kind")
+            elif res:
+                ctx.fail("failing-input", f"FileSet.match yielded {o['keys']} although the widened period {[w0, w1]} (us after T0) "
+                         f"{'is empty' if w1 < w0 else 'holds no file of one of the filesets'}", case=c, impl=o["keys"],
+                         model=want, signature="match-result")
+            else:
+                ctx.fail("correspondence", f"FileSet.match yielded nothing, the model raises {want[1]}", case=c, impl=res,
+                         model=want, signature="match-error-kind")
+            continue
+        expect_keys = [[list(prim[i]), [list(sec[j]) for j in js]] for i, js in spec]
+        expect = [[i, list(js)] for i, js in spec]
+        if isinstance(res, str):
+            ctx.fail("failing-input", f"FileSet.match raised {res}", case=c, impl=res, model=expect_keys, signature="match-error")
+            continue
+        # "in time order": strictly increasing positions in the listings of find() (theorem match_full_listing_order)
+        canon = sorted([i, sorted(js)] for i, js in res)
+        if canon == expect and res != expect:
+            ctx.fail("failing-input", f"FileSet.match yielded the right pairs in another order than find() lists the files: "
+                     f"{o['keys']}, expected {expect_keys}", case=c, impl=o["keys"], model=expect_keys, signature="match-order")
+        elif res != expect:
+            ctx.fail("failing-input", f"FileSet.match returned {o['keys']}, expected {expect_keys}", case=c, impl=o["keys"],
+                     model=expect_keys, signature="match-result")
+        elif not (increasing([i for i, _ in res]) and all(increasing(js) for _, js in res)):
+            ctx.fail("proof", "the specification itself is not in listing order (cannot happen while theorem "
+                     "match_full_listing_order stands)", case=c, signature="model-vs-spec")
+        if expect and any(len(js) < len(sel_s) for _, js in spec):
             nontrivial.add(repr(c))
         if c["id"] % 7 == 0:
-            ctx.sample({"match": {k: c[k] for k in ("prim", "sec", "mi", "start", "end")}, "expected": expect[:2]}, limit=8)
+            ctx.sample({"match": {k: c[k] for k in ("prim", "sec", "mi", "start", "end")}, "expected": expect_keys[:2]}, limit=8)
     return len(nontrivial)
 
 
@@ -334,6 +497,7 @@ def run(ctx):
     nm = ctx.n(60, 1500)
     tree_cases = [gen_tree_case(ctx.rng, k) for k in range(nt)]
     match_cases = [gen_match_case(ctx.rng, k) for k in range(nm)]
+    match_cases += gen_period_cases(ctx.rng, nm, ctx.n(36, 600))
     a = check_tree_cases(ctx, tree_cases)
     b = check_match_cases(ctx, match_cases)
     ctx.cov["distinct_nontrivial"] = a + b
@@ -342,12 +506,18 @@ def run(ctx):
                        "for FileSet.match; a case is non-trivial when at least one query has a non-empty answer and at "
                        "least one answer is not the whole set; distinct by input")
     ctx.cov["input_distribution"] = {
-        "tree_cases": nt, "match_cases": nm,
+        "tree_cases": nt, "match_cases": len(match_cases),
+        "match_period_kinds": {k: sum(1 for c in match_cases if c.get("directed", "random") == k)
+                               for k in sorted({c.get("directed", "random") for c in match_cases})},
+        "match_open_sides": sum(1 for c in match_cases if c["start"] is None or c["end"] is None),
         "kinds": {k: sum(1 for c in tree_cases if c["kind"] == k) for k in ("int", "smallint", "float", "datetime")},
         "sizes": {str(n): sum(1 for c in tree_cases if len(c["ivs"]) == n) for n in sorted({len(c["ivs"]) for c in tree_cases})},
     }
+    ctx.cov["input_distribution"]["match_outcomes"] = dict(sorted(OUTCOMES.items()))
     ctx.assumptions += ["stored intervals are closed and well formed (lo <= hi): hypothesis of every theorem, checked per case",
-                        "float/datetime end points are handed to the model as integers in the same order (theorem rank_invariant)"]
+                        "float/datetime end points are handed to the model as integers in the same order (theorem rank_invariant)",
+                        "FileSet.match: max_interval >= 0, start/end datetimes or not given (period_ok), secondary files with "
+                        "start <= end, find() listing by (start, end): hypotheses of the match_full theorems, checked per case"]
     return ctx.finish(trusted_base=TRUSTED)
 
 
